@@ -42,7 +42,7 @@ def describe(tier):
             else "graphs: L(1..4) all labelled ADMGs + O(5, <=4 edges)"
         )
         + "; size limits k in {None, 0..n-2, n}; variants: default (topological) policy, len-lex policy via minimal(), "
-        "return_all=True; PYTHONHASHSEED in "
+        "return_all=True, len-lex policy with return_all on the graph renamed to names of unequal length; PYTHONHASHSEED in "
         + str(HASH_SEEDS[tier])
         + (" (seeds other than 0: graphs up to 3 nodes and four-node graphs up to 3 edges)" if tier == "quick" else ""),
         "rule": "state = (graph, k, variant); transition = one get_conditional_independencies / minimal(d_separations) call "
@@ -123,7 +123,22 @@ def explore_graph(res: Res, g: G, only=None):
     mins = min_sep_sizes(g)
     n = len(g.nodes)
     ks = [None] + list(range(0, max(n - 1, 1))) + [n]
+    # the same graph under names of unequal length: the built-in length/lexicographic policy must still prefer fewer
+    # conditions, whatever the names look like
+    long_names = {"A": "Aaaaaaa", "B": "Bb", "C": "C", "D": "Ddddd", "E": "Ee"}
+    yl = to_y0(G(tuple(long_names[n] for n in g.nodes), tuple((long_names[a], long_names[b]) for a, b in g.di), tuple((long_names[a], long_names[b]) for a, b in g.bi)))
+    back = {v: k for k, v in long_names.items()}
+
+    def renamed(js):
+        from y0.struct import DSeparationJudgement
+
+        return {
+            DSeparationJudgement.create(V(back[str(j.left)]), V(back[str(j.right)]), [V(back[str(c)]) for c in j.conditions], separated=j.separated)
+            for j in js
+        }
+
     variants = {
+        "len_lex_all_long_names": lambda k: renamed(minimal(d_separations(yl, max_conditions=k, return_all=True))),
         "default": lambda k: get_conditional_independencies(yg, max_conditions=k),
         "len_lex": lambda k: minimal(d_separations(yg, max_conditions=k)),
         "return_all": lambda k: get_conditional_independencies(yg, max_conditions=k, return_all=True),
